@@ -439,7 +439,7 @@ class Session:
         self.closed = False
         # isolation layer (used only while eng.cc is set)
         self.nested = 0            # > 0 inside a trigger or a stored function
-        self.mode = "current"      # "snapshot" while a SELECT without locking clause is evaluated
+        self.mode = "snapshot"     # "current" while a locking read or a DML statement is evaluated (they read the latest committed rows)
         self.held = []
         self.snap = None
         self.read_view = False
@@ -790,12 +790,17 @@ class Session:
             vars["__types__"][pname] = pkind
         sub = Env(self, (), vars, None)
         self.nested += 1
+        saved_mode = self.mode
+        self.mode = "snapshot"     # the statements of a stored function are statements of their own: a locking clause of the caller does not reach them
+        if self.eng.cc is not None and not self.read_view:
+            self.read_view = True
         try:
             self.exec_stmt(r.body, sub)
         except _Return as ret:
             return self.coerce(ret.value, r.returns)
         finally:
             self.nested -= 1
+            self.mode = saved_mode
         _raise("OperationalError", 1321, f"FUNCTION {name} ended without RETURN")
 
     def fire(self, table, timing, event, old, new):
@@ -809,12 +814,15 @@ class Session:
             env = Env(self, (frame,), {"__types__": {}}, None)
             saved_rc = self.row_count
             self.nested += 1
+            saved_mode = self.mode
+            self.mode = "snapshot"  # likewise for the statements of a trigger body (its DML and locking reads switch to "current" themselves)
             try:
                 self.exec_stmt(trg.body, env)
             except _Leave:
                 pass
             finally:
                 self.nested -= 1
+                self.mode = saved_mode
             self.row_count = saved_rc
 
     # ---- DML ----------------------------------------------------------------------------------------------------
